@@ -69,6 +69,26 @@ def network(case):
         aux = {"vinA": list(range(n["A"])), "vinB": list(range(n["B"])), "vout": list(range(n["C"]))}
         concs = {"A": A, "B": B, "C": C}
         fluxes = {"vinA": 1.0, "vinB": 1.0, "v1": 1.0, "vout": 1.0}
+    elif net in ("merge-rev", "split-rev"):
+        # the same reactions with the species named and written in non-alphabetical order
+        Q, B, M = 0.5, 2.0, 1.25
+        if net == "merge-rev":  # Q(1) + B(2) -> M(3), written Q first
+            m.add_variables({"Q": Q, "B": B, "M": M}).add_parameters({"ka": 1.0, "kb": 1.0, "k1": 1.0, "k2": 0.8})
+            m.add_reaction("vinQ", cin, args=["ka"], stoichiometry={"Q": 1})
+            m.add_reaction("vinB", cin, args=["kb"], stoichiometry={"B": 1})
+            m.add_reaction("v1", ma2, args=["Q", "B", "k1"], stoichiometry={"Q": -1, "B": -1, "M": 1})
+            m.add_reaction("vout", ma1, args=["M", "k2"], stoichiometry={"M": -1})
+            aux = {"vinQ": list(range(n["Q"])), "vinB": list(range(n["B"])), "vout": list(range(n["M"]))}
+            fluxes = {"vinQ": 1.0, "vinB": 1.0, "v1": 1.0, "vout": 1.0}
+        else:  # M(3) -> Z(1) + C(2), written Z first
+            m.add_variables({"M": M, "Z": Q, "C": B}).add_parameters({"kc": 1.0, "k1": 0.8, "ka": 2.0, "kb": 0.5})
+            m.add_reaction("vinM", cin, args=["kc"], stoichiometry={"M": 1})
+            m.add_reaction("v1", ma1, args=["M", "k1"], stoichiometry={"M": -1, "Z": 1, "C": 1})
+            m.add_reaction("voutZ", ma1, args=["Z", "ka"], stoichiometry={"Z": -1})
+            m.add_reaction("voutC", ma1, args=["C", "kb"], stoichiometry={"C": -1})
+            aux = {"vinM": list(range(n["M"])), "voutZ": list(range(n["Z"])), "voutC": list(range(n["C"]))}
+            fluxes = {"vinM": 1.0, "v1": 1.0, "voutZ": 1.0, "voutC": 1.0}
+        concs = {v: float(m.get_initial_conditions()[v]) for v in m.get_variable_names()}
     elif net == "dimer-split":  # A(2n) -> 2 B(n)
         A, B = 0.5, 2.0
         m.add_variables({"A": A, "B": B}).add_parameters({"ka": 1.0, "k1": 2.0, "kb": 1.0})
@@ -104,6 +124,7 @@ def generate(tier):
     cases = []
     shapes = [("chain", {"A": k, "B": k}) for k in (1, 2, 3)] + [("merge", {"A": 1, "B": 2, "C": 3}), ("split", {"A": 1, "B": 2, "C": 3})]
     # a species with coefficient 2: its molecules' positions must be paired molecule by molecule
+    shapes += [("merge-rev", {"Q": 1, "B": 2, "M": 3}), ("split-rev", {"M": 3, "Z": 1, "C": 2})]
     shapes += [("dimer-split", {"A": 2, "B": 1}), ("dimer-merge", {"B": 1, "C": 2}), ("dimer-split", {"A": 4, "B": 2}), ("dimer-merge", {"B": 2, "C": 4})]
     if tier == "thorough":
         shapes += [("chain", {"A": 4, "B": 4}), ("merge", {"A": 2, "B": 2, "C": 4}), ("split", {"A": 2, "B": 2, "C": 4}), ("merge", {"A": 2, "B": 1, "C": 3})]
